@@ -233,6 +233,16 @@ fn run_engine(a: &Analyzed, top: &str, cfg: &Config, stim: &Stimulus, want_summa
     let ir = Ir::from_module(module, cfg, m.token);
     let mut sim = veryl_simulator::Simulator::new(ir, None);
     let t = vdesign::sim::run_on(&mut sim, cfg, stim)?;
+    // how often the cone gate skipped / ran a segment in this run (class only)
+    let gate = sim.ir.cone_gate_state.borrow().as_ref().map(|g| (g.skipped, g.ran));
+    let sum = match (sum, gate) {
+        (Some(mut s), Some((sk, rn))) => {
+            s["_gate_skipped"] = json!(sk);
+            s["_gate_ran"] = json!(rn);
+            Some(s)
+        }
+        (s, _) => s,
+    };
     Ok((t, sum))
 }
 
@@ -340,11 +350,6 @@ fn run_all(case: &Value) -> Value {
         }
         if want_clif && jit4 {
             clif_dump(&a, top, true, "clif4");
-        }
-        if let Some(tb) = &tb {
-            if want_summary && any2 {
-                sum.insert("tb_ir2".into(), ir_summary(&a, tb, false));
-            }
         }
     }
     json!({"analyze": "ok", "runs": runs, "tb": tbs, "sum": sum, "warnings": a.warnings.len()})
